@@ -79,3 +79,23 @@ Theorem C11_codes : forall o ctx v pd,
   In v all_validators -> In pd (vr_diags (run_validator o ctx v)) -> d_code (snd pd) = v.
 Proof. exact run_validator_code. Qed.
 Print Assumptions C11_codes.
+
+(* --- compositions --- *)
+From BW Require Import SpecTag SpecBlocks Merge Context.
+From BWP Require Import Run_proofs Merge_proofs Compose_proofs.
+From Coq Require Import Permutation.
+(* The printed per-file report is a permutation of all validators' diagnostics with one entry per file ... *)
+Theorem C11_report_is_union_of_validators : forall o ctx vs,
+  let arrivals := map (fun v => group_by_file (vr_diags (run_validator o ctx v))) vs in
+  Permutation (flatten (merge_all arrivals)) (vr_diags (run_validators o ctx vs)) /\
+  NoDup (map fst (merge_all arrivals)).
+Proof. exact report_is_union. Qed.
+Print Assumptions C11_report_is_union_of_validators.
+
+(* ... for every order in which validator results arrive, with the same exit verdict. *)
+Theorem C11_report_any_arrival_order : forall o ctx vs arrivals',
+  Permutation (map (fun v => group_by_file (vr_diags (run_validator o ctx v))) vs) arrivals' ->
+  Permutation (flatten (merge_all arrivals')) (vr_diags (run_validators o ctx vs)) /\
+  has_error_severity (merge_all arrivals') = has_error (run_validators o ctx vs).
+Proof. exact report_any_order. Qed.
+Print Assumptions C11_report_any_arrival_order.
